@@ -4,7 +4,7 @@
    A trace file holds, per generated input set, one *reference* case followed by many *selection* cases.
 
    reference case (the tool without any selection defines the unfiltered annotated stream A):
-     {"ev":"reset","case":n,"hdr":{"kind":"ref","set":k,"gen":[{key,hash,ecu,apid,ctid,ext},...]}}   gen = what the driver wrote
+     {"ev":"reset","case":n,"hdr":{"kind":"ref","set":k,"gen":[{key,hash,ecu,apid,ctid,ext,ecuc,apidc,ctidc},...]}}   gen = what the driver wrote (..c = ids as characters)
      {"ev":"refline","index":i,"key":k,"ecu":..,"apid":..,"ctid":..,"ext":b}    one per line of `convert -a <files>`
      {"ev":"exit","code":c}
      {"ev":"lc","id":l,"ecu":..,"n":count}                                     one per line of the lifecycle listing of `convert <files>`
@@ -70,7 +70,8 @@ RefLine == /\ Ev("refline") /\ phase = "running" /\ kind = "ref" /\ ~exited
                  /\ gen[g].key = Cur.key /\ gen[g].ecu = Cur.ecu /\ gen[g].ext = Cur.ext
                  /\ gen[g].apid = Cur.apid /\ gen[g].ctid = Cur.ctid        \* it is an input message, ids as written
                  /\ AA' = Append(AA, [index |-> Cur.index, key |-> Cur.key, lc |-> 0, ecu |-> Cur.ecu, apid |-> Cur.apid,
-                                      ctid |-> Cur.ctid, ext |-> Cur.ext, hash |-> gen[g].hash])
+                                      ctid |-> Cur.ctid, ext |-> Cur.ext, hash |-> gen[g].hash,
+                                      ecuc |-> gen[g].ecuc, apidc |-> gen[g].apidc, ctidc |-> gen[g].ctidc])
            /\ UNCHANGED <<case, phase, kind, gen, lcs, seen, refset, cset, o, sel, scr, fil, exited, viol, skipped>>
 RefExit == /\ Ev("exit") /\ phase = "running" /\ kind = "ref" /\ ~exited
            /\ Cur.code = 0 /\ Len(AA) = Len(gen)                            \* no selection => every input message was emitted
